@@ -94,7 +94,7 @@ int main(int argc, char **argv) {
             for (size_t i = 0; i + 8 <= h.size(); i += 8) u.push_back((uint32_t)strtoul(h.substr(i, 8).c_str(), 0, 16));
             texts.push_back(u); dirs.push_back(c == std::string::npos ? 0 : atoi(f[k].substr(c + 1).c_str()));
         }
-        std::string path = repo + "/tests/fonts/" + f[2];
+        std::string path = f[2][0] == '/' ? f[2] : repo + "/tests/fonts/" + f[2];
         Src ref_src, src;
         FILE *fp = fopen(path.c_str(), "rb");
         if (fp) { fseek(fp, 0, SEEK_END); long n = ftell(fp); fseek(fp, 0, SEEK_SET); src.data.resize(n > 0 ? n : 0); if (n > 0 && fread(src.data.data(), 1, n, fp) != (size_t)n) src.data.clear(); fclose(fp); }
